@@ -76,14 +76,25 @@ def _is_len(e):
 
 
 def chains(expr):
-    """Attribute chains (a, a.b, a.b.c) and root names read by an expression."""
+    """Root names and *maximal* attribute chains read by an expression. For a method call
+    `a.b.m()` the receiver chain `a.b` is included as well (a store to a.b.x may change the
+    result of the call), for a plain attribute load `a.b.c` only `a.b.c` itself."""
     roots, chs = set(), set()
+    inner = set()
+    for n in iter_own(expr):
+        if isinstance(n, ast.Attribute):
+            inner.add(id(n.value))
     for n in iter_own(expr):
         if isinstance(n, ast.Name):
             roots.add(n.id)
-        d = dotted(n) if isinstance(n, (ast.Attribute, ast.Name)) else None
-        if d:
-            chs.add(d)
+        if isinstance(n, (ast.Attribute, ast.Name)) and id(n) not in inner:
+            d = dotted(n)
+            if d:
+                chs.add(d)
+        if isinstance(n, ast.Call) and isinstance(n.func, ast.Attribute):
+            d = dotted(n.func.value)
+            if d:
+                chs.add(d)
     return roots, chs
 
 
@@ -159,6 +170,7 @@ class Guards:
         self.self_writes = self_writes
         self.rd = ReachingDefs(cfg, params)
         self.labels = {}  # key -> (expr, roots, chains)
+        self.origin = {}  # key -> (test node, original condition expr) of one occurrence
         for n in cfg.nodes:
             for d, k, c in n.succ:
                 if k in ("T", "F") and c is not None:
@@ -166,6 +178,7 @@ class Guards:
                     if key not in self.labels:
                         roots, chs = chains(e)
                         self.labels[key] = (e, roots, chs)
+                        self.origin[key] = (n, c)
         self._cache = {}
 
     def _unguarded_set(self, key, pol):
